@@ -46,6 +46,9 @@ type Solver struct {
 	LogDir    string // when set, every query is written there
 	LastQuery string
 	Incremental bool
+	AbsDiv      bool // abstract wide division as UF with concrete-evaluation refinement
+	AbsDivRounds int
+	AbsDivQueries int
 	inc       *incState
 }
 
@@ -297,6 +300,17 @@ func (s *Solver) Check(asserts []*Term, wantModel bool) (Result, *Model) {
 		}
 	}()
 	s.Stats.Queries++
+	if s.AbsDiv && hasWideDiv(as) {
+		if r, m, ok := s.checkAbsDiv(as, wantModel); ok {
+			if r == Unsat {
+				s.Stats.Unsat++
+			} else {
+				s.Stats.Sat++
+			}
+			s.Stats.BySolver[s.procs[0].name+"(absdiv)"]++
+			return r, m
+		}
+	}
 	if s.Incremental {
 		if r, m, ok := s.checkInc(as, wantModel); ok {
 			s.Stats.BySolver[s.procs[0].name+"(inc)"]++
@@ -819,4 +833,142 @@ func (st *incState) emit(sb *strings.Builder, t *Term, lv *incLevel) {
 	sb.WriteString(")\n")
 	st.named[t.ID] = name
 	lv.defined = append(lv.defined, t.ID)
+}
+
+// ---- division abstraction with refinement ---------------------------------------
+
+func hasWideDiv(as []*Term) bool {
+	seen := map[int]bool{}
+	found := false
+	var visit func(t *Term)
+	visit = func(t *Term) {
+		if found || seen[t.ID] {
+			return
+		}
+		seen[t.ID] = true
+		if t.W >= 16 && (t.Op == OUDiv || t.Op == OURem || t.Op == OSDiv || t.Op == OSRem) && !(t.Args[0].IsConst() && t.Args[1].IsConst()) {
+			found = true
+			return
+		}
+		for _, a := range t.Args {
+			visit(a)
+		}
+	}
+	for _, a := range as {
+		visit(a)
+	}
+	return found
+}
+
+func divTerms(as []*Term) []*Term {
+	seen := map[int]bool{}
+	var out []*Term
+	var visit func(t *Term)
+	visit = func(t *Term) {
+		if seen[t.ID] {
+			return
+		}
+		seen[t.ID] = true
+		for _, a := range t.Args {
+			visit(a)
+		}
+		if t.W >= 16 && t.W <= 64 && (t.Op == OUDiv || t.Op == OURem || t.Op == OSDiv || t.Op == OSRem) && !(t.Args[0].IsConst() && t.Args[1].IsConst()) {
+			out = append(out, t)
+		}
+	}
+	for _, a := range as {
+		visit(a)
+	}
+	return out
+}
+
+// checkAbsDiv decides the query with bvudiv/bvsdiv/bvurem/bvsrem (>= 32 bits)
+// replaced by uninterpreted functions.  unsat is sound.  A model is evaluated
+// concretely with real division: if it satisfies the original query it is a
+// genuine model; otherwise the evaluated points are added as lemmas and the
+// query is asked again (bounded rounds), then the caller falls back.
+func (s *Solver) checkAbsDiv(as []*Term, wantModel bool) (Result, *Model, bool) {
+	p := s.procs[0]
+	var lemmas []string
+	dts := divTerms(as)
+	for round := 0; round < 8; round++ {
+		s.AbsDivQueries++
+		absDivPrint = true
+		absDivUsed = map[string]int{}
+		var body strings.Builder
+		vars := WriteDefs(&body, as)
+		absDivPrint = false
+		var sb strings.Builder
+		sb.WriteString("(reset)\n(set-option :produce-models true)\n")
+		fmt.Fprintf(&sb, "(set-option :timeout %d)\n", s.TimeoutMs)
+		for n, w := range absDivUsed {
+			fmt.Fprintf(&sb, "(declare-fun %s ((_ BitVec %d) (_ BitVec %d)) (_ BitVec %d))\n", n, w, w, w)
+		}
+		sb.WriteString(body.String())
+		for _, l := range lemmas {
+			sb.WriteString(l)
+		}
+		sb.WriteString("(check-sat)\n")
+		if len(vars) > 0 {
+			sb.WriteString("(get-value (")
+			for _, v := range vars {
+				sb.WriteString(quoteSym(v.Name) + " ")
+			}
+			sb.WriteString("))\n")
+		}
+		s.LastQuery = sb.String()
+		lines, err := p.run(sb.String(), time.Duration(s.TimeoutMs)*time.Millisecond+10*time.Second)
+		if err != nil {
+			return Unknown, nil, false
+		}
+		res := Unknown
+		var rest []string
+		for _, l := range lines {
+			switch {
+			case l == "sat":
+				res = Sat
+			case l == "unsat":
+				res = Unsat
+			case l == "unknown":
+			case strings.HasPrefix(l, "(error"):
+				if !(strings.Contains(l, "model is not available") || strings.Contains(l, "unless after a SAT")) {
+					return Unknown, nil, false
+				}
+			default:
+				rest = append(rest, l)
+			}
+		}
+		if res == Unsat {
+			return Unsat, nil, true
+		}
+		if res != Sat {
+			return Unknown, nil, false
+		}
+		m := parseModel(strings.Join(rest, " "))
+		genuine := true
+		for _, a := range as {
+			v, ok := Eval(a, m.V)
+			if !ok {
+				return Unknown, nil, false
+			}
+			if v != 1 {
+				genuine = false
+				break
+			}
+		}
+		if genuine {
+			return Sat, m, true
+		}
+		s.AbsDivRounds++
+		for _, dt := range dts {
+			a, ok1 := Eval(dt.Args[0], m.V)
+			b, ok2 := Eval(dt.Args[1], m.V)
+			if !ok1 || !ok2 {
+				return Unknown, nil, false
+			}
+			r, _ := Eval(mk(dt.Op, dt.W, 0, 0, 0, "", "", Const(dt.W, a), Const(dt.W, b)), nil)
+			lemmas = append(lemmas, fmt.Sprintf("(assert (= (%s %s %s) %s))\n", absDivName(dt), Const(dt.W, a), Const(dt.W, b), Const(dt.W, r)))
+		}
+	}
+	return Unknown, nil, false
 }
